@@ -81,3 +81,16 @@ Definition viewport_ts (n : vnode) (st : vstate) (t : ts) : ts :=
 Definition spec_clip_rect (n l : vnode) (st : vstate) : option qrect :=
   if spec_clips n l st && Qltb 0 (spec_vp_w n st) && Qltb 0 (spec_vp_h n st)
   then Some {| rx := spec_vp_x n st; ry := spec_vp_y n st; rw := spec_vp_w n st; rh := spec_vp_h n st |} else None.
+
+(* ---- image placement (image.rs convert_inner; Gen/LeafImage.v): hand models of the primitives it calls ---------- *)
+Definition no_clip : option qrect := None.
+Definition Qmin2 (a b : Q) : Q := if Qleb a b then a else b.
+Definition Qmax2 (a b : Q) : Q := if Qleb a b then b else a.
+(* tiny_skia_path::NonZeroRect::transform: bounding box of the four mapped corners; None when it is degenerate *)
+Definition rect_transform (r : qrect) (t : ts) : option qrect :=
+  let x0 := rx r in let y0 := ry r in let x1 := rx r + rw r in let y1 := ry r + rh r in
+  let l := Qmin2 (Qmin2 (map_x t x0 y0) (map_x t x1 y0)) (Qmin2 (map_x t x0 y1) (map_x t x1 y1)) in
+  let rr := Qmax2 (Qmax2 (map_x t x0 y0) (map_x t x1 y0)) (Qmax2 (map_x t x0 y1) (map_x t x1 y1)) in
+  let tp := Qmin2 (Qmin2 (map_y t x0 y0) (map_y t x1 y0)) (Qmin2 (map_y t x0 y1) (map_y t x1 y1)) in
+  let b := Qmax2 (Qmax2 (map_y t x0 y0) (map_y t x1 y0)) (Qmax2 (map_y t x0 y1) (map_y t x1 y1)) in
+  nzrect_from_xywh l tp (rr - l) (b - tp).
